@@ -560,6 +560,7 @@ def c05(pid, tier, seed, t0):
     decls = copyd(sub(star, signed)) + copyd(sub(arr, signed)) + copyd(sub(nc, signed)) + copyd(sub(rnd, signed))
     if tier == "thorough":
         decls += tall_chunks(signed)
+    decls = vlib.vary_names(decls)
     declfile = save_decls("C05", decls)
     legs = [trace_leg(pid, tier, seed, "signed(star,arr,nc,rand)", decls, declfile, "get,write", q(tier, 3, 10), crate="rt-c05")]
     PROOFS["C05"] = tlaps_leg(["SignExtendTruncate (sign extension to the return type, truncation back to the field)", "RoundTrip", "Frame"])
@@ -574,6 +575,7 @@ def c06(pid, tier, seed, t0):
     mc = [mc_register("C06", "SmallDecls", ["a", "b"], ["TypeOK", "UpperBitsZero"], ["DeclConstant"])]
     _, base = vlib.corpus("base")
     decls = copyd(base)
+    decls = vlib.vary_names(decls)
     declfile = save_decls("C06", decls)
     legs = [trace_leg(pid, tier, seed, "base", decls, declfile, "base", q(tier, 1, 8), crate="rt-c06")]
     # for ALL raw values: new_with_raw_value(r).raw_value() = r with nothing stored at or above bit N; ZERO; DEFAULT
@@ -637,6 +639,7 @@ def c11(pid, tier, seed, t0):
                 top = [f for f in d["fields"] if max(h for _, h in f["ranges"]) >= d["n"] - 2 or f["kind"] == "inat"]
                 rest = [f for f in d["fields"] if f not in top]
                 d["fields"] = top + rest[::3]
+    decls = vlib.vary_names(decls)
     declfile = save_decls("C11", decls)
     legs = [trace_leg(pid, tier, seed, "arbitrary-int bases", decls, declfile, "write,history", q(tier, 1, 4), crate="rt-c11")]
     # layouts that would put state above bit N-1 must not exist at all: compile verdicts validated against Decl!Valid
